@@ -108,7 +108,7 @@ impl Group for C10Sim {
             // no remembered header below the tip (fresh from the checkpoint): refused removals must leave the window empty
             c("world bare|blk- b|blk+ b|blk- b|blk+ g|blk- b|blk- g|blk- b|restart|blk- b"),
             // under a filter that demotes policy-other, requests far ahead are refused later than usual
-            c("world filter policy-other|sh 2|sh 3|vh 2 g 0|sh 1|rv 2|scp 2 0|cpr 2 g|sh 0|vh 0 g 0"),
+            c("world filter policy-other|sh 3|sh 4|vh 2 g 0|rv 2|scp 2 0|cpr 2 g|sh 2|sh 3|sh 0|vh 0 g 0"),
             c("world filter policy-commitment-retry-same|scp 0 0|scp -1 1|vh 0 g 0|rv 0|vh -1 g 1|cpr 0 b"),
             // the channel map fills up: creation (also of an existing stub) is refused until one is forgotten
             c("newch 1|newch 2|newch 3|newch 4|newch 2|forget 2|newch 4|newch 5|restart|newch 5|forget 1|newch 5"),
